@@ -92,6 +92,11 @@ class LbWorld(object):
   def server(self, i):
     """Member i as the server set reports it.  With 'endpoint_name' the member's service endpoint is a different address
     (admin port on another host name) and the endpoint to balance over is the additional endpoint of that name."""
+    if self.p.get('tuple_endpoints'):
+      # endpoints that are plain named tuples (host, port), as the Kafka router's KafkaEndpoint is
+      import collections
+      EP = collections.namedtuple('EP', 'host port')
+      return stubs.Server(EP('h%d' % i, 1000 + i))
     if not self.p.get('endpoint_name'):
       return stubs.make_server(i)
     from scales.loadbalancer.zookeeper import Endpoint
